@@ -54,11 +54,54 @@ impl RecordsBounds {
     }
 
     pub fn from_start(ns: &NamespaceId, end: Bound<RecordsIdOwned>) -> Self {
-        Self::new(Self::namespace_start(ns), end)
+        Self::within_namespace(ns, Self::namespace_start(ns), end)
     }
 
     pub fn to_end(ns: &NamespaceId, start: Bound<RecordsIdOwned>) -> Self {
-        Self::new(start, Self::namespace_end(ns))
+        Self::within_namespace(ns, start, Self::namespace_end(ns))
+    }
+
+    /// Bounds from `start` to `end`, restricted to the records of the namespace `ns`.
+    ///
+    /// Range bounds may come from a remote peer and must never select records of another
+    /// namespace stored in the same table.
+    pub fn within_namespace(
+        ns: &NamespaceId,
+        start: Bound<RecordsIdOwned>,
+        end: Bound<RecordsIdOwned>,
+    ) -> Self {
+        let ns_start = (ns.to_bytes(), [0u8; 32], Bytes::new());
+        let start = match start {
+            Bound::Included(id) | Bound::Excluded(id) if id < ns_start => {
+                Bound::Included(ns_start.clone())
+            }
+            Bound::Unbounded => Bound::Included(ns_start.clone()),
+            start => start,
+        };
+        let end = match (end, Self::namespace_end(ns)) {
+            (Bound::Unbounded, ns_end) => ns_end,
+            (Bound::Included(id), Bound::Excluded(ns_end))
+            | (Bound::Excluded(id), Bound::Excluded(ns_end))
+                if id >= ns_end =>
+            {
+                Bound::Excluded(ns_end)
+            }
+            (end, _) => end,
+        };
+        // an empty intersection must stay a valid (empty) range
+        let (start_id, end_id) = match (&start, &end) {
+            (Bound::Included(s) | Bound::Excluded(s), Bound::Included(e) | Bound::Excluded(e)) => {
+                (Some(s), Some(e))
+            }
+            _ => (None, None),
+        };
+        if matches!((start_id, end_id), (Some(s), Some(e)) if s > e) {
+            return Self::new(
+                Bound::Included(ns_start.clone()),
+                Bound::Excluded(ns_start),
+            );
+        }
+        Self::new(start, end)
     }
 
     pub fn as_ref(&self) -> (Bound<RecordsId<'_>>, Bound<RecordsId<'_>>) {
